@@ -9,7 +9,14 @@ Specification   spec/Tools.tla   (Success(exit), FsckNClean(exit, problems), C01
 Conformance     for every universe element: corrupted copy of a base image; real `e2fsck -fy -E problem_log=..` then real
                 `e2fsck -fn -E problem_log=..`; one ndjson line {exit1, nfixed, exit2, problems2}; TLC (Trace_Tools.tla, action
                 TFsckYN) evaluates C01_Holds on every line.  The second run's problem records are the failure signature of a
-                finding (DESIGN.md section 5, C01); known findings are keyed by it.
+                finding (DESIGN.md section 5, C01).  A known finding is keyed by  profile | recipe class (role.field of every
+                recipe) | ordered problem codes with inode numbers of the second run  -- physical block and group numbers are
+                left out, so the key does not move with the allocation layout of the base images (signature()).
+Closed universe both tiers draw from the same set: every (profile, recipe) of the catalogue (recomputed and stale checksum), every
+                pair of the pair seeds and the closed triples that binds on the base image.  thorough runs ALL of it (48 141
+                elements on the 15 profiles, ~13-17 min on the loaded 16-core machine); quick is a seeded subset of it.  The
+                known list (fixes/C01_known_findings.txt = the C01 lines of known_findings.txt) is regenerated from a full
+                thorough run on the unchanged tree with `python3 checks/c01.py mkknown` (bottom of this file).
 """
 import os, sys, json, random, shutil, time, re, multiprocessing as mp
 for _d in ("lib", "checks", "reader", "gen"):       # only needed for `python3 checks/c01.py mkknown ...`; bin/check has set the path already
@@ -168,7 +175,9 @@ def run(tier):
         ev.assumptions += [
             "e2fsck is run as the suite runs it (tests/test_config environment); 'reports no problem' = the second run's -E problem_log has no <problem>/<suppressed> record (pass headers are not problems)",
             "a run killed by a signal or by the 60 s timeout claims nothing (exit -1); such runs are counted (killed_or_timeout) and belong to C06",
-            "universe = base images of gen/mkbase.py x Corrupt.tla catalogue (singles with recomputed and stale checksums, all pairs of the pair seeds)",
+            "universe = base images of gen/mkbase.py x Corrupt.tla catalogue (singles with recomputed and stale checksums, all pairs of the pair seeds, closed triples); "
+            "thorough runs every bindable element, quick a seeded subset of the same set",
+            "known findings are matched by profile | role.field of the recipes | second run's ordered problem codes with inode numbers (no block / group numbers)",
         ]
         return vd.finish()
     finally:
